@@ -14,6 +14,14 @@ _Bool vf_nondet_bool(void) { int x; return x != 0; }
 int vf_nondet_int(void) { int x; return x; }
 unsigned long vf_nondet_ulong(void) { unsigned long x; return x; }
 
+/* signed -> unsigned conversion is defined (modular) in C++; the lowering routes it through these
+   so that CBMC's --conversion-check does not report it */
+#pragma CPROVER check push
+#pragma CPROVER check disable "conversion"
+unsigned long vf_s2u_64(long x) { return (unsigned long)x; }
+unsigned int vf_s2u_32(long x) { return (unsigned int)(unsigned long)x; }
+#pragma CPROVER check pop
+
 /* ---- memory orders --------------------------------------------------------------- */
 #define VF_MO_RELAXED 0
 #define VF_MO_CONSUME 1
